@@ -457,6 +457,30 @@ func checkC14(c *Ctx) {
 			}
 			return nil
 		}
+		// a blocking send on ANY channel (outside a select with a default) in the goroutine Close waits
+		// for: nobody may be receiving when it happens - e.g. a result handed to Close on an unbuffered
+		// channel while Close is still in wg.Wait()
+		blockingSend := func(fn *ssa.Function) ssa.Instruction {
+			var found ssa.Instruction
+			instrsOf(fn, func(in ssa.Instruction) {
+				if found != nil {
+					return
+				}
+				switch x := in.(type) {
+				case *ssa.Send:
+					found = x
+				case *ssa.Select:
+					if x.Blocking {
+						for _, st := range x.States {
+							if st.Dir == types.SendOnly {
+								found = x
+							}
+						}
+					}
+				}
+			})
+			return found
+		}
 		// callees: static ones, and for interface calls every method of this package with that name
 		// whose receiver implements the interface (the reporter's own cached handles)
 		pkgFuncs := c.funcsOfPkg(pk)
@@ -500,8 +524,8 @@ func checkC14(c *Ctx) {
 		for _, fn := range consumers {
 			key := c.fnKey(fn)
 			c.sawFunc(key)
-			var bad ssa.Instruction
-			var via []string
+			var bad, badSend ssa.Instruction
+			var via, viaSend []string
 			seenF := map[*ssa.Function]bool{fn: true}
 			type item struct {
 				f     *ssa.Function
@@ -517,6 +541,9 @@ func checkC14(c *Ctx) {
 						bad, via = s, it.trail
 						break
 					}
+				}
+				if s := blockingSend(it.f); s != nil {
+					badSend, viaSend = s, it.trail
 				}
 				if it.d >= 6 {
 					continue
@@ -535,12 +562,38 @@ func checkC14(c *Ctx) {
 					}
 					return ""
 				}())
+			c.check(badSend == nil, "O3 worker-never-blocks-on-send", key, fn.Pos(), "the batching goroutine (and what it calls) performs no blocking channel send",
+				"the goroutine Close waits for performs a blocking channel send (call chain: "+strings.Join(viaSend, " -> ")+"): if its receiver is Close itself - which is still waiting for this goroutine - neither ever returns; otherwise the goroutine is left behind after Close", func() string {
+					if badSend != nil {
+						return c.describe(badSend)
+					}
+					return ""
+				}())
 		}
 		c.floor("O3 consumer-never-produces", len(consumers), 1)
 	}
 	// the reporter's wiring is fixed at construction: handles and late callers (Allocate*, Report* after
 	// Close) keep using it, so Close must not tear it down
-	c.checkSetOnlyAtConstruction("O4 fixed-after-construction", pk, "reporter", "resourcePool", "metCh", "donech", "commonTags", "stringInterner", "tagCache", "calc", "calcProto", "client", "buckets", "freeBytes", "overheadBytes")
+	{
+		// every field of the reporter that is not an atomic / sync type is assigned at construction only:
+		// a plain field written by a method (a reporter-wide scratch buffer, a lazily built table) is a
+		// data race between concurrent Allocate / Report calls
+		var fixed []string
+		if nt := c.named(pk, "reporter"); nt != nil {
+			if st, ok := nt.Underlying().(*types.Struct); ok {
+				for i := 0; i < st.NumFields(); i++ {
+					f := st.Field(i)
+					tn := types.TypeString(f.Type(), nil)
+					if strings.Contains(tn, "atomic.") || strings.HasPrefix(tn, "sync.") {
+						continue
+					}
+					fixed = append(fixed, f.Name())
+				}
+			}
+		}
+		c.checkSetOnlyAtConstruction("O4 fixed-after-construction", pk, "reporter", fixed...)
+		c.floor("O4 fixed-after-construction", len(fixed), 12)
+	}
 
 	// ---- O4 re-entrant handles ------------------------------------------------------------------
 	c.checkReentrantHandles("O4 reentrant-handles", []string{"m3", "prometheus", "multi"})
